@@ -15,7 +15,7 @@ import (
 var profC04 = Profile{
 	MaxProcs: 5, MaxItems: 4, Bufsizes: []int{0, 1, 2, 3}, MaxSlots: 6,
 	Params: true, MultiOut: true, FanIn: true, FanOut: true, NoPort: true, Custom: true,
-	Subdirs: true, Cores: true, Recorders: true, ParamSrc: true, TwoSources: true, Zip: true, Sinkless: true,
+	Subdirs: true, Cores: true, Recorders: true, ParamSrc: true, TwoSources: true, Zip: true, Sinkless: true, Joins: true, EmptyOuts: true,
 }
 
 func tierProfile(p Profile, tier string) Profile {
@@ -139,7 +139,7 @@ func init() {
 var profC05 = Profile{
 	MaxProcs: 5, MaxItems: 4, Bufsizes: []int{0, 1, 2, 3}, MaxSlots: 4,
 	Params: true, MultiOut: true, FanIn: true, FanOut: true, NoPort: true, Sinkless: true,
-	Subdirs: true, Cores: true, TwoSources: true, Zip: true, RunTo: true,
+	Subdirs: true, Cores: true, TwoSources: true, Zip: true, RunTo: true, Joins: true, EmptyOuts: true,
 }
 
 // returnOracle checks the state at the instant Run returned.
@@ -300,7 +300,7 @@ var _ = fmt.Sprint
 func ExportCase(t *simrt.Tape) (*WF, map[string]string, []string) {
 	p := Profile{MaxProcs: 5, MaxItems: 4, Bufsizes: []int{0, 1, 2, 3}, MaxSlots: 6,
 		Params: true, MultiOut: true, FanIn: true, FanOut: true, NoPort: true,
-		Subdirs: true, Cores: true, ParamSrc: true, TwoSources: true, Zip: true, Taggers: true, Joins: true, Extras: true}
+		Subdirs: true, Cores: true, ParamSrc: true, TwoSources: true, Zip: true, Taggers: true, Joins: true, Extras: true, EmptyOuts: true}
 	w := Generate(t, p)
 	ex := Eval(w)
 	files := map[string]string{}
